@@ -20,6 +20,9 @@ if [ -x "harness/$lc/run.sh" ]; then
 fi
 if [ -d "harness/$lc/_child" ]; then
   go build -o "$SCRATCH/vchild" ./cmd/vchild || { echo "CHECK-ERROR: build of vchild failed" >&2; exit 2; }
+  if [ -f "harness/$lc/_child/REWRITE" ]; then
+    go build -o "$SCRATCH/vrewrite" ./cmd/vrewrite || { echo "CHECK-ERROR: build of vrewrite failed" >&2; exit 2; }
+  fi
   if [ ! -f "harness/$lc/main.go" ]; then
     "$SCRATCH/vchild" "harness/$lc" "$TIER" "$@"
     exit $?
